@@ -43,6 +43,8 @@ type Config struct {
 	Trace            bool
 	InitAllow        []string // extra package path prefixes whose init is executed
 	StopOnViolation  bool
+	NoFD             bool // disable the finite-domain fast path (every query goes to the SMT solver)
+	CrossCheckFD     int  // cross-check every n-th fast-path verdict against the SMT solver (0 = never)
 }
 
 func (c *Config) denyFn(fn *ssa.Function) bool { return false }
@@ -494,6 +496,10 @@ func (ex *explorer) worker(w int) (err error) {
 	r.Stats.Steps += st.Steps
 	r.Stats.Imprecise += st.Imprecise
 	r.Stats.LazyForced += st.LazyForced
+	r.Stats.FDSat += st.FDSat
+	r.Stats.FDUnsat += st.FDUnsat
+	r.Stats.FDCrossChecked += st.FDCrossChecked
+	r.Stats.FDMismatch += st.FDMismatch
 	for k := 0; k < 3; k++ {
 		r.Queries[k] += int64(i.solver.Queries[k])
 	}
